@@ -8,6 +8,7 @@ import (
 	"fmt"
 	"io"
 	"sort"
+	"strings"
 
 	"seehuhn.de/go/pdf"
 	"verif/sim/core"
@@ -73,6 +74,9 @@ func Run(e *core.Env) {
 // run one case at a time).
 var sparse bool
 
+// viaReader counts checks, to sample the second pass through MakeReader.
+var viaReader int
+
 type extent struct {
 	ref        strictpdf.Ref
 	start, end int64
@@ -86,6 +90,7 @@ func (g *versionGetter) Get(pdf.Reference, bool) (pdf.Native, error) { return ni
 
 // Enumerate checks all crash points and damage variants of one image.
 func Enumerate(e *core.Env, res *wprog.Result, image []byte, eofAtEnd bool) {
+	viaReader = 0
 	f, err := strictpdf.Parse(image)
 	if err != nil {
 		e.Skip("intact image rejected by strictpdf (see C03)")
@@ -198,6 +203,36 @@ func Enumerate(e *core.Env, res *wprog.Result, image []byte, eofAtEnd bool) {
 			rc.Close()
 			if err != nil || !bytes.Equal(body, exp.Body) {
 				e.Fail("stream-mismatch", nil, "%s: stream %s [%v]: %d bytes written, %d read (err %v)", what, ref, exp.Filters, len(exp.Body), len(body), err)
+				return false
+			}
+		}
+		// The same objects through the Reader that MakeReader builds from the
+		// scan (on a sample of the crash points: it costs a second pass).  The
+		// statement does not promise that MakeReader succeeds on a damaged
+		// file; if it does, a listed, unbroken object must read as written.
+		viaReader++
+		if viaReader%23 != 0 && !strings.HasPrefix(what, "xref damage") {
+			return true
+		}
+		r, err := fi.MakeReader(&pdf.ReaderOptions{ErrorHandling: pdf.ErrorHandlingRecover})
+		if err != nil {
+			e.Probe("MakeReader declined")
+			return true
+		}
+		e.Probe("objects read through the recovered Reader")
+		for _, x := range complete {
+			ref := pdf.NewReference(x.ref.Num, x.ref.Gen)
+			exp := res.Written[ref]
+			if exp == nil || exp.IsStream {
+				continue
+			}
+			got, err := r.Get(ref, true)
+			if err != nil {
+				e.Fail("read-failed", map[string]string{"via": "MakeReader"}, "%s: recovered Reader.Get(%s): %v", what, ref, err)
+				return false
+			}
+			if d := gen.Diff(exp.Obj, got, ""); d != "" {
+				e.Fail("value-mismatch", map[string]string{"via": "MakeReader"}, "%s: object %s through the recovered Reader: %s", what, ref, d)
 				return false
 			}
 		}
